@@ -360,7 +360,9 @@ def c02_cases(tier, seed):
 
 PROPS["C02"] = {
     "theorems": ["C02_text_inline", "C02_text_preserves_nonws", "C02_text_no_break_out", "C02_children_skip_empty_text",
-                 "C02_children_skip_empty_expr", "C02_no_children_null", "C02_children_array"],
+                 "C02_children_skip_empty_expr", "C02_no_children_null", "C02_children_array",
+                 "splitLines_glue", "cleanText_glue", "toLines_spec", "C02_text_is_the_jsx_rule"],
+    "extra_modules": ["VueJsx.Props.C02b"],
     "cases": c02_cases,
     "post": literal_roundtrip_post,
     "unit_clause": {"transform_text": "text-cleaning"},
@@ -430,7 +432,7 @@ def c01_cases(tier, seed):
 PROPS["C01"] = {
     "theorems": ["C01_tag_known", "C01_tag_fragment", "C01_tag_pattern", "C01_tag_unresolved", "C01_tag_bound", "C01_tag_member", "C01_tag_member_shape",
                  "C01_valueless_true", "C01_string_value_cleaned", "C01_expr_value", "C01_spread_plain", "C01_spread_merge",
-                 "C01_no_attrs", "C01_assemble_merge", "C01_tag_member_hyphen"],
+                 "C01_no_attrs", "C01_assemble_merge", "C01_tag_member_hyphen", "C01_tag_member_quiet", "C01_tag_member_object_reported"],
     "cases": c01_cases,
     "post": literal_roundtrip_post,
     "explanation": "oracle: for every JSX element of the input, the vnode type and the props normal form (Sem.normOps: Vue mergeProps / plain last-wins semantics, class/style/listener concatenation) DENOTED by the written attributes equal those EVALUATED from the real output's createVNode arguments (mergeProps calls, deduplicated literals, _transformOn layers); elements with v-model are judged by C05",
@@ -716,7 +718,7 @@ PROPS["C05"] = {
     "extra": c05_extra,
     "theorems": ["C05_select", "C05_textarea", "C05_input_checkbox", "C05_input_radio", "C05_input_other_static", "C05_input_no_type",
                  "C05_input_dynamic_type", "C05_listener_assigns_target", "C05_component_default", "C05_component_modifiers",
-                 "C05_component_static_arg", "C05_element_binding", "C05_models_sequence", "C05_models_entry_plain", "C05_models_entry_any", "C05_models_entry_underscore", "C05_array_argument_keeps_suffix_modifiers", "C05_unassignable_target_reported"],
+                 "C05_component_static_arg", "C05_element_binding", "C05_models_sequence", "C05_models_entry_plain", "C05_models_entry_any", "C05_models_entry_underscore", "C05_array_argument_keeps_suffix_modifiers", "C05_unassignable_target_reported", "C05_eval_arguments_not_targets", "C05_spec_assignable_is_the_models"],
     "cases": c05_cases,
     "explanation": "oracle: on every element carrying v-model(s) the denoted props (value prop, modifiers prop, onUpdate listener assigning to the target) and directive bindings (vModelText/Checkbox/Radio/Select/Dynamic by host and type) equal those evaluated from the real output; v-models is expanded to the same-order v-model sequence in the denotation",
 }
